@@ -27,7 +27,7 @@ SPEC = {
               "StatsQueue": "(List (List Gen.ClientStats))", "Instant": "Unit",
               "TcpListener": "Unit", "TcpStream": "Unit", "Poll": "Gen.Poll", "Events": "(List Nat)", "Token": "Nat", "Event": "Nat",
               "Timer": "(List Rs.Time)", "Shutdown": "Unit", "PathBuf": "String", "NonZeroUsize": "Nat",
-              "YamlDoc": "Gen.YamlDoc", "Yaml": "Gen.Yaml", "YamlDocs": "(List Gen.YamlDoc)", "File": "Unit", "OptString": "(Option String)"},
+              "YamlDoc": "Gen.YamlDoc", "Yaml": "Gen.Yaml", "YamlDocs": "(List Gen.YamlDoc)", "File": "Unit", "OptString": "(Option String)", "Thread": "Unit"},
     # translated structs (fields of other types must be listed under skip_fields)
     "structs": {
         "RtMessage": {},
@@ -183,6 +183,8 @@ SPEC = {
         "FileConfig::int_in_range": {"by_type": {"u16": "(Rs.ofOpt (Config.narrow 16 {1}))", "u8": "(Rs.ofOpt (Config.narrow 8 {1}))",
                                                  "usize": "(Rs.ofOpt (Config.narrow 64 {1}))", "u64": "(Rs.ofOpt (Config.narrow 64 {1}))",
                                                  "u32": "(Rs.ofOpt (Config.narrow 32 {1}))"}, "lean": "", "result": True},
+        "MsgSigner::new": {"lean": "(Signer.fromSeed ONL)", "result": True, "ret_rust": "MsgSigner"},
+        "Grease::new": {"lean": "(({ pending := GQ, cur := Grease.none } : Gen.GreaseQ))"},
         "StatsQueue::pop": {"lean": "({self}).tail", "res": "({self}).head?", "mutates": True},
         "Instant::now": {"lean": "()", "ret_rust": "Instant"},
         "Instant::duration_since": {"lean": "()"},
@@ -347,6 +349,8 @@ SPEC = {
             "imports": ["Message"],
             "params": [("S", "SigScheme")],
             "functions": {
+                # the freshly generated online seed (ring's SystemRandom in `MsgSigner::new`) is the parameter ONL
+                "OnlineKey::new": {"params": [("ONL", "Bytes")]},
                 "OnlineKey::make_dele": {},
                 "OnlineKey::classic_midp": {"checked_u64": True},
                 "OnlineKey::rfc_midp": {},
@@ -367,13 +371,17 @@ SPEC = {
         },
         "Responder": {
             "file": "src/responder.rs",
-            "imports": ["Message", "Merkle", "Online"],
-            "lean_imports": ["Rough.Gen.ServerExt"],
+            "imports": ["Message", "Merkle", "Online", "LongTerm"],
+            "lean_imports": ["Rough.Gen.ServerExt", "Rough.Model.Config"],
             "params": [("S", "SigScheme"), ("H", "Bytes → Bytes")],
             # log records are formatted lazily: `debug!` arguments are evaluated iff LOG ≥ 4 (error 1 … trace 5)
             "log_param": "LOG",
             "functions": {
                 "Responder::send_responses": {"params": [("S", "SigScheme"), ("H", "Bytes → Bytes"), ("LOG", "Nat")]},
+                # ONL: the online seed drawn for this responder; GQ: the fault-injection decisions its injector will draw
+                "Responder::new": {"params": [("S", "SigScheme"), ("H", "Bytes → Bytes"), ("ONL", "Bytes"), ("GQ", "List Grease")],
+                                   # this `let` only feeds a field the translation does not keep (the worker thread's name, for log lines)
+                                   "drop_lets": ["thread_id"]},
                 "Responder::reset": {},
                 "Responder::is_empty": {},
                 "Responder::add_classic_request": {},
